@@ -14,7 +14,14 @@ for mp in sorted(glob.glob(os.path.join(V, "seeded", "*", "meta.json"))):
         rs = sorted({re.match(r"\[([^\]]+)\]", l).group(1) for l in cb[pid] if re.match(r"\[([^\]]+)\]", l)})
         rules.append("%s (%s)" % (pid, ", ".join(rs)))
     own = "yes" if sid[:3] in cb else ("**no**" if cb else "-")
-    rows.append("| %s | %s | %s | %s | %s |" % (sid, ", ".join(fn), m.get("needs_to_manifest", "").replace("|", "/")[:150], "; ".join(rules) or "**missed**", own))
+    caught = "; ".join(rules) or "**missed**"
+    if m.get("obsolete"):
+        caught, own = "obsolete: " + m["obsolete"][:110], "-"
+    elif not rules and m.get("analysis_broken"):
+        caught = "**not judged** (exit 2: %s)" % re.sub(r"\s+", " ", m["analysis_broken"][0])[:120].replace("|", "/")
+    if m.get("rebased"):
+        sid = sid + " (rebased)"
+    rows.append("| %s | %s | %s | %s | %s |" % (sid, ", ".join(fn), m.get("needs_to_manifest", "").replace("|", "/")[:150], caught, own))
 tab = "| seed | files | needs, to manifest | caught by (rules) | by its own property's check |\n|---|---|---|---|---|\n" + "\n".join(rows)
 p = os.path.join(V, "DESIGN.md")
 s = open(p).read()
